@@ -30,6 +30,13 @@ POOL = [0.1, -2.7, 1.0 / 3.0, 16777217.0, -16777219.0, 3.4e38, -3.4e38, 1.0e-40,
         -0.000123456789, 2147483649.0, 1.0000000596046448, 65504.5, 359.99999999, -179.5, 7.0, 1.0, -1.0, 255.0,
         1e10, 5e-324 + 1e-30, 299792458.123, 1e-9, -1e-9, -1e-30, 2147483648.0, 4294967297.0, 9007199254740992.0,
         16777216.0, 33554433.0]
+# the float32 extremes themselves and float64 values that round to them: largest finite float32 and its negative, the
+# value below it, doubles just under the maximum (rounding up to it / down to its neighbour), smallest normal and
+# smallest subnormal float32 and doubles that round to those
+FMAX = 3.4028234663852886e38
+POOL += [FMAX, -FMAX, 3.40282346e38, -3.40282346e38, 3.4028232635611926e38, 3.402823e38, -3.4028233e38, 3.4027e38,
+         1.1754943508222875e-38, -1.1754943508222875e-38, 1.17549440e-38, 1.401298464324817e-45, -1.401298464324817e-45,
+         1.0e-45, 2.0e-45, 1.1754942e-38]
 INT_POOL = [16777217, 16777216, 33554433, 2147483649, 4294967297, 2 ** 40 + 1, 2 ** 53 - 1, 0 - 16777219, 1, 2, 3, 255, 256, 257,
             32768, 65535]
 
